@@ -220,8 +220,13 @@ func (c *popCtx) fill(v reflect.Value, path, gpath string, depth int) {
 func (c *popCtx) fillInner(e reflect.Value, i, depth int) {
 	t := e.Type()
 	mk := func(j int) reflect.Value {
+		// inner elements are fully populated and then made distinct per (outer, inner) index,
+		// so that records swapped or shared between outer entries show up in the contents
 		x := reflect.New(t.Elem()).Elem()
-		(&popCtx{t: c.t, variant: c.variant, sel: "\x00none", forceIface: true}).fill(x, "", "", depth+2)
+		(&popCtx{t: c.t, variant: c.variant, forceIface: true}).fill(x, "", "", depth+2)
+		if !isScalar(x.Type()) {
+			varyKey(x, 1+2*i+j)
+		}
 		return x
 	}
 	switch t.Kind() {
@@ -508,7 +513,7 @@ func (t *target) walk() walkResult {
 		after := linesOf(out)
 		// zero-valued lines are dropped on both sides: the skeleton allocates struct pointers that
 		// an encoder may legitimately bring back as nil (wallet link items: zero outpoint <-> nil)
-		if d := dposkit.DiffLines(nonZero(before), nonZero(after), 3); len(d) > 0 {
+		if d := dposkit.DiffLines(persisted(t, nonZero(before)), persisted(t, nonZero(after)), 3); len(d) > 0 {
 			fails[i] = &sizeFailure{g, j.n, "content differs after the round trip: " + strings.Join(d, " | ")}
 		}
 	})
@@ -613,6 +618,17 @@ func containsInterfaceElem(t *target, variant map[reflect.Type]reflect.Type, pat
 		}
 	}
 	return false
+}
+
+// persisted drops the lines of fields that are not persisted on purpose (notState lists).
+func persisted(t *target, lines []string) []string {
+	var out []string
+	for _, l := range lines {
+		if !notPersisted(t, dposkit.Generic(pathOfLine(l))) {
+			out = append(out, l)
+		}
+	}
+	return out
 }
 
 func nonZero(lines []string) []string {
